@@ -99,6 +99,10 @@ type Pool struct {
 	// MaxTasks recycles a worker process after that many tasks (0 = never); for harnesses whose
 	// code under test leaks goroutines by design (handlers blocked on a dead peer).
 	MaxTasks int
+	// Skip, when set, is asked before a task is handed to a worker; a skipped task is dropped without
+	// a callback (the caller counts them and reports the cut).  Used to stop a family of tasks after
+	// it has produced its counterexamples (every further task would wait for the hang bound again).
+	Skip func(task []byte) bool
 }
 
 type tailBuf struct {
@@ -277,6 +281,10 @@ func (p *Pool) MapD(tasks [][]byte, decode func(out []byte) interface{}, onResul
 				}
 				t := queue[0]
 				queue = queue[1:]
+				if p.Skip != nil && p.Skip(t) {
+					mu.Unlock()
+					continue
+				}
 				inflight++
 				mu.Unlock()
 
